@@ -289,6 +289,7 @@ def main(rep, tier, seed):
     K = 61
     items = [items[j] for i in range(K) for j in range(i, len(items), K)]
     outl, bad, errors = F.correspond(binpath, items, HEADER, CHECK, "c12")
+    rep.extra["build_profiles"] = F.profile_phase(rep, "c12", items, outl, profiles=("release",)) if not errors and len(outl) == len(items) else {}
     if any(name == "harness" for name, _ in errors):
         idx = find_abort(binpath, items)
         if idx is not None:
